@@ -71,5 +71,22 @@ def prove(chk, files, prop_file, groups=("core",), gen_modules=None):
         cov["print_assumptions"] = pa
         axs = sorted({a for v in pa.values() if isinstance(v, list) for a in v})
         chk.assumptions += [f"axiom (Print Assumptions): {a}" for a in axs]
+    if chk.tier == "thorough" and prop_file in br.built_vo:
+        # independent re-check of the compiled closure + the axioms it relies on
+        mod = "PV." + prop_file[:-2].replace("/", ".")
+        rc, out = common.sh(f"timeout 3000 coqchk -silent -o -Q {COQ} PV {mod}", cwd=COQ, timeout=3100)
+        axioms = []
+        grab = False
+        for ln in out.split("\n"):
+            if "Axioms:" in ln:
+                grab = True
+                continue
+            if grab and ln.strip() and not ln.startswith(" "):
+                grab = False
+            if grab and ln.strip():
+                axioms.append(ln.strip())
+        cov["coqchk"] = {"exit": rc, "axioms": axioms, "tail": out[-600:]}
+        if rc != 0:
+            broken.append({"what": "coqchk rejected the compiled closure", "detail": out[-1500:]})
     cov["broken_obligations"] = broken
     return (not broken), br
